@@ -85,6 +85,12 @@ func refB5(files map[string][]byte, depDigests []string) string {
 // refB4 is the legacy digest: one manifest over the module files and the v1 buf.yaml / buf.lock
 // objects (named by their file names), hashed once; dependencies do not enter it.
 func refB4(files map[string][]byte, bufYAML, bufLock []byte) string {
+	return refB4Named(files, "buf.yaml", bufYAML, bufLock)
+}
+
+// refB4Named: the v1 configuration object enters the manifest under the name it had when the module
+// was pushed ("buf.mod" for old modules).
+func refB4Named(files map[string][]byte, yamlName string, bufYAML, bufLock []byte) string {
 	all := map[string][]byte{}
 	for p, c := range files {
 		if isModuleFile(p, files) {
@@ -92,7 +98,7 @@ func refB4(files map[string][]byte, bufYAML, bufLock []byte) string {
 		}
 	}
 	if bufYAML != nil {
-		all["buf.yaml"] = bufYAML
+		all[yamlName] = bufYAML
 	}
 	if bufLock != nil {
 		all["buf.lock"] = bufLock
@@ -210,6 +216,10 @@ func (m *dsim) drawModules() {
 		for _, extra := range []string{"LICENSE", "buf.md", "README.md", "README.markdown"} {
 			if m.tp.Draw("d.extra", 3) == 1 {
 				md.files[extra] = []byte(fmt.Sprintf("%s of d%d #%d\n", extra, i, m.tp.Draw("d.nonce", 1000)))
+				if m.tp.Draw("d.extraempty", 4) == 3 {
+					// an empty LICENSE / documentation file is still that module's file
+					md.files[extra] = []byte{}
+				}
 			}
 		}
 		for _, junk := range []string{"notes.txt", "pkg/data.yaml", "README.txt", "LICENSE.md", "sub/LICENSE", "sub/buf.md",
@@ -1131,7 +1141,12 @@ func (m *dsim) cacheRoundTripB4(main int, tarLayout bool) {
 	if err != nil {
 		panic(err)
 	}
-	want4 := refB4(md.files, md.bufYAML, md.bufLock)
+	yamlName := "buf.yaml"
+	if md.bufYAML != nil && m.tp.Draw("d.bufmod", 3) == 2 {
+		yamlName = "buf.mod"
+		m.s.Probe("legacy-config-file-name")
+	}
+	want4 := refB4Named(md.files, yamlName, md.bufYAML, md.bufLock)
 	refDigest, err := bufmodule.ParseDigest(want4)
 	if err != nil {
 		m.violate("digest-equals-published-construction", "parse", "reference b4 digest %q does not parse: %v", want4, err)
@@ -1152,7 +1167,7 @@ func (m *dsim) cacheRoundTripB4(main int, tarLayout bool) {
 	data := bufmodule.NewModuleData(ctx, key,
 		func() (storage.ReadBucket, error) { return storagemem.NewReadBucket(md.files) },
 		func() ([]bufmodule.ModuleKey, error) { return nil, nil },
-		object("buf.yaml", md.bufYAML),
+		object(yamlName, md.bufYAML),
 		object("buf.lock", md.bufLock),
 	)
 	m.n++
